@@ -279,3 +279,56 @@ pub fn cipherlaw(exp: &str, hexkey: &str, hexdata: &str) -> String {
         _ => "bad-op".into(),
     }
 }
+
+
+/// `ebig wrath <key40hex> <n>`: a Wrath server message whose body exceeds what a 16-bit size field can describe (SMSG_SEND_UNLEARN_SPELLS with
+/// `n` spells, body 4 + 4n) between two small ones, written encrypted and read back with the typed `expect_server_message_encryption` helper.
+/// Reply like `eseq`: `ok hdronly=<0|1> <bodylen>[!]@<pos> ... end=<len>`.
+#[cfg(feature = "wrath")]
+pub fn ebig(hexkey: &str, n: usize) -> String {
+    use wow_world_messages::wrath as e;
+    let Some(k) = key(hexkey) else { return "bad-op".into() };
+    let (client, server) = vt_pair!(wrath_header, k);
+    let (_ce, mut cd) = client.split();
+    let (mut se, _sd) = server.split();
+    let big = e::SMSG_SEND_UNLEARN_SPELLS { spells: (0..n as u32).collect() };
+    let p1 = e::SMSG_PONG { sequence_id: 1 };
+    let p2 = e::SMSG_PONG { sequence_id: 0xDEADBEEF };
+    let mut cipher = Vec::new();
+    let mut plain = Vec::new();
+    let mut hdr_positions: Vec<(usize, usize)> = Vec::new();
+    macro_rules! put {
+        ($m:expr, $blen:expr) => {{
+            let before = cipher.len();
+            if let Err(x) = e::ServerMessage::write_encrypted_server(&$m, &mut cipher, &mut se).and_then(|_| e::ServerMessage::write_unencrypted_server(&$m, &mut plain)) {
+                return format!("write-failed {x}");
+            }
+            hdr_positions.push((before, before + (cipher.len() - before).saturating_sub($blen)));
+        }};
+    }
+    put!(p1, 4);
+    put!(big, 4 + 4 * n);
+    put!(p2, 4);
+    let mut hdronly = cipher.len() == plain.len();
+    if hdronly {
+        for (i, (a, b)) in cipher.iter().zip(plain.iter()).enumerate() {
+            if a != b && !hdr_positions.iter().any(|(s, t)| i >= *s && i < *t) { hdronly = false; break; }
+        }
+    }
+    let mut cur = Cursor::new(cipher.as_slice());
+    let mut out = format!("ok hdronly={}", hdronly as u8);
+    match e::expect_server_message_encryption::<e::SMSG_PONG, _>(&mut cur, &mut cd) {
+        Ok(m) => out.push_str(&format!(" 4{}@{}", if m.sequence_id == 1 { "" } else { "!" }, cur.position())),
+        Err(x) => return format!("{out} then {} at {}", errk!(x), cur.position()),
+    }
+    match e::expect_server_message_encryption::<e::SMSG_SEND_UNLEARN_SPELLS, _>(&mut cur, &mut cd) {
+        Ok(m) => out.push_str(&format!(" {}{}@{}", 4 + 4 * m.spells.len(), if m == big { "" } else { "!" }, cur.position())),
+        Err(x) => return format!("{out} then {} at {}", errk!(x), cur.position()),
+    }
+    match e::expect_server_message_encryption::<e::SMSG_PONG, _>(&mut cur, &mut cd) {
+        Ok(m) => out.push_str(&format!(" 4{}@{}", if m.sequence_id == 0xDEADBEEF { "" } else { "!" }, cur.position())),
+        Err(x) => return format!("{out} then {} at {}", errk!(x), cur.position()),
+    }
+    out.push_str(&format!(" end={}", cipher.len()));
+    out
+}
